@@ -42,6 +42,7 @@ type Case struct {
 	Root        map[string]string `json:"root"`
 	Target      string            `json:"target"`
 	DropImports bool              `json:"drop_imports"` // edit before restoring: all import declarations removed (the restorer must add them)
+	RemoveUses  int               `json:"remove_uses"`  // edit before restoring (when > 0 and imports are kept): every declaration that refers to the (RemoveUses-1 mod n)-th referenced package is deleted, so that its import spec has to go
 	K           int               `json:"k"`            // 0: enumerate every k; >0: only this k (set in replay files)
 	Op          string            `json:"op"`           // "" all | "decorate-gotypes" | "decorate-goast" | "decorate-package" | "parsefile-broken" | "parsedir" | "restore"
 }
@@ -86,6 +87,43 @@ func printAst(fset *token.FileSet, f *ast.File) string {
 	var buf bytes.Buffer
 	format.Node(&buf, fset, f)
 	return buf.String()
+}
+
+// removeUses deletes every non-import declaration that refers to the i-th (sorted, modulo)
+// package path referenced in the file.
+func removeUses(f *dst.File, i int) {
+	paths := map[string]bool{}
+	dst.Inspect(f, func(n dst.Node) bool {
+		if id, ok := n.(*dst.Ident); ok && id.Path != "" {
+			paths[id.Path] = true
+		}
+		return true
+	})
+	if len(paths) == 0 {
+		return
+	}
+	var ps []string
+	for p := range paths {
+		ps = append(ps, p)
+	}
+	sort.Strings(ps)
+	victim := ps[i%len(ps)]
+	var keep []dst.Decl
+	for _, d := range f.Decls {
+		uses := false
+		if gd, ok := d.(*dst.GenDecl); !ok || gd.Tok != token.IMPORT {
+			dst.Inspect(d, func(n dst.Node) bool {
+				if id, ok := n.(*dst.Ident); ok && id.Path == victim {
+					uses = true
+				}
+				return true
+			})
+		}
+		if !uses {
+			keep = append(keep, d)
+		}
+	}
+	f.Decls = keep
 }
 
 func dropImports(f *dst.File) {
@@ -346,6 +384,8 @@ func check(t h.TB, c Case) {
 			}
 			if c.DropImports {
 				dropImports(df)
+			} else if c.RemoveUses > 0 {
+				removeUses(df, c.RemoveUses-1)
 			}
 			return df
 		}
@@ -364,7 +404,7 @@ func check(t h.TB, c Case) {
 			cc.K, cc.Op = k, "restore"
 			h.Eval("inject:restore")
 			if k > 1 {
-				h.NonTrivial(sub, "r", fmt.Sprint(k, c.DropImports), c.Root[c.Target])
+				h.NonTrivial(sub, "r", fmt.Sprint(k, c.DropImports, c.RemoveUses), c.Root[c.Target])
 			}
 			df := mk()
 			before := dsth.Dump(df, dsth.DumpOpts{})
@@ -406,6 +446,10 @@ func firstDiff(a, b string) string {
 func genCase(t *rapid.T) (Case, bool) {
 	p := gen.GenProg(t, 1, 2)
 	c := Case{Libs: p.Libs, Root: p.RootSources(rootPath), DropImports: rapid.Bool().Draw(t, "drop")}
+	if !c.DropImports && rapid.Bool().Draw(t, "removeuses") {
+		c.RemoveUses = 1 + rapid.IntRange(0, 5).Draw(t, "victim")
+		h.Label("edit:remove-all-uses-of-one-package")
+	}
 	var fn []string
 	for n := range c.Root {
 		fn = append(fn, n)
